@@ -1179,7 +1179,10 @@ package kcache
   at store(session) set sessionDone := false
   at call(scheduleRetry).after set retryArmed := true
   at call(Stop) set retryArmed := false
-  at store(outch) assert [a-reset-cancels-the-pending-reconnect] (not retryArmed)
+  ghost needCancel : Bool := false
+  at recv(resetch) set needCancel := retryArmed
+  at call(Stop) set needCancel := false
+  loop 1 inv [a-reset-cancels-the-pending-reconnect] (not needCancel)
   at call(dyncall) set cancelled := true
   at recv(donech) assert [the-sessions-context-is-cancelled-before-waiting-for-the-session] cancelled
   at recv(donech) set liveSession := false
